@@ -2,8 +2,12 @@
 package main
 
 import (
+	"math/big"
+	"runtime/debug"
+	"sort"
 	"strconv"
 	"strings"
+	"time"
 
 	"github.com/richardwilkes/toolbox/txt"
 	"verifharness/hx"
@@ -39,7 +43,25 @@ func letter(r *hx.Rng) string {
 	}
 }
 
-// digitRun returns zeros followed by significant digits; one run in eight is longer than a machine word.
+// magnitudes are the decimal values at which a numeric shortcut through a machine type goes wrong: 2^k and 10^k with
+// their neighbours, the limits of int32/int64/uint64/float64-exact/uint128.
+var magnitudes = func() []string {
+	var out []string
+	add := func(v *big.Int) {
+		for d := int64(-1); d <= 1; d++ {
+			out = append(out, new(big.Int).Add(v, big.NewInt(d)).String())
+		}
+	}
+	for _, k := range []uint{7, 8, 15, 16, 31, 32, 53, 62, 63, 64, 65, 127, 128} {
+		add(new(big.Int).Lsh(big.NewInt(1), k))
+	}
+	for _, k := range []int64{1, 2, 3, 9, 10, 18, 19, 20, 21, 24, 25, 38, 39} {
+		add(new(big.Int).Exp(big.NewInt(10), big.NewInt(k), nil))
+	}
+	return out
+}()
+
+// digitRun returns zeros followed by significant digits; one run in four is at or beyond a machine word.
 func digitRun(r *hx.Rng) string {
 	var sb strings.Builder
 	if r.Chance(1, 3) {
@@ -50,9 +72,12 @@ func digitRun(r *hx.Rng) string {
 	n := r.Range(1, 5)
 	switch r.Intn(8) {
 	case 0:
-		n = r.Range(17, 24)
+		n = r.Range(17, 25)
 	case 1:
 		n = 0 // zeros only (or nothing at all)
+	case 2:
+		sb.WriteString(hx.Pick(r, magnitudes))
+		return sb.String()
 	}
 	for i := 0; i < n; i++ {
 		if i == 0 {
@@ -157,7 +182,45 @@ func zerosOfRun(r *hx.Rng, s string) string {
 	if s[at] == '0' && at+1 < len(s) && isDig(s[at+1]) && r.Bool() {
 		return s[:at] + s[at+1:] // one zero fewer
 	}
-	return s[:at] + strings.Repeat("0", r.Range(1, 3)) + s[at:]
+	n := r.Range(1, 3)
+	if r.Chance(1, 40) { // a zero COUNT that wraps a narrow counter
+		n = hx.Pick(r, []int{15, 16, 17, 255, 256, 257, 300})
+	}
+	return s[:at] + strings.Repeat("0", n) + s[at:]
+}
+
+// wrapOfRun changes the value of one digit run by a multiple of 2^8, 2^16, 2^32, 2^63 or 2^64 (values that a
+// fixed-width accumulator cannot tell apart).
+func wrapOfRun(r *hx.Rng, s string) string {
+	rs := runs(s)
+	if len(rs) == 0 {
+		return s
+	}
+	at := rs[r.Intn(len(rs))]
+	end := at
+	for end < len(s) && isDig(s[end]) {
+		end++
+	}
+	nz := at
+	for nz < end && s[nz] == '0' {
+		nz++
+	}
+	v := new(big.Int)
+	if nz < end {
+		v.SetString(s[nz:end], 10)
+	}
+	step := new(big.Int).Lsh(big.NewInt(1), hx.Pick(r, []uint{8, 16, 32, 63, 64, 64, 64, 64}))
+	step.Mul(step, big.NewInt(int64(r.Range(1, 3))))
+	if v.Cmp(step) >= 0 && r.Bool() {
+		v.Sub(v, step)
+	} else {
+		v.Add(v, step)
+	}
+	digits := v.String()
+	if digits == "0" {
+		digits = ""
+	}
+	return s[:at] + s[at:nz] + digits + s[end:]
 }
 
 // numberOfRun changes the value of one digit run: another digit of the same length, one digit more or fewer, ±1
@@ -268,37 +331,223 @@ func related(r *hx.Rng, a string, kind int) string {
 	return b
 }
 
-// kinds and their weights (per 100): identical pairs stay rare.
-var kindWeights = []int{2, 12, 12, 8, 6, 6, 12, 10, 8, 12, 6, 6}
+// kinds and their weights: identical pairs stay rare. Kinds 0-11 derive b from a by related(); kinds 12-17 build both
+// sides (specialPair) and keep the regions dense in which independently written regressions hid.
+var kindWeights = []int{2, 10, 10, 7, 5, 5, 10, 9, 7, 10, 5, 5, 6, 5, 5, 7, 6, 1}
 
-func pickKind(r *hx.Rng) int {
-	x := r.Intn(100)
-	for k, w := range kindWeights {
-		if x < w {
-			return k
-		}
-		x -= w
+var kindTotal = func() int {
+	t := 0
+	for _, w := range kindWeights {
+		t += w
 	}
-	return len(kindWeights) - 1
+	return t
+}()
+
+func pickKindBelow(r *hx.Rng, limit int) int {
+	for {
+		x := r.Intn(kindTotal)
+		for k, w := range kindWeights {
+			if x < w {
+				if k < limit {
+					return k
+				}
+				break
+			}
+			x -= w
+		}
+	}
+}
+
+// pickKind returns one of the related() kinds.
+func pickKind(r *hx.Rng) int { return pickKindBelow(r, 12) }
+
+func withLetters(r *hx.Rng, a string, atLeast int) string {
+	n := 0
+	for i := 0; i < len(a); i++ {
+		if isLetter(a[i]) {
+			n++
+		}
+	}
+	for ; n < atLeast; n++ {
+		i := r.Intn(len(a) + 1)
+		c := byte('a' + r.Intn(26))
+		if r.Bool() {
+			c ^= 0x20
+		}
+		a = a[:i] + string([]byte{c}) + a[i:]
+	}
+	return a
+}
+
+func withRun(r *hx.Rng, a string) string {
+	if len(runs(a)) == 0 {
+		i := r.Intn(len(a) + 1)
+		a = a[:i] + digitRun(r) + "7" + a[i:]
+	}
+	return a
+}
+
+func digitsN(r *hx.Rng, n int) string {
+	b := make([]byte, n)
+	for i := range b {
+		b[i] = byte('0' + r.Intn(10))
+	}
+	return string(b)
+}
+
+// sizes at which fixed-size buffers, narrow counters and "fast paths" change behaviour
+var thresholdSizes = []int{12, 16, 17, 32, 33, 64, 65, 128, 129, 255, 256, 257, 300, 1000, 1025}
+
+// longStr builds a string of several hundred to a few thousand bytes: long letter stretches, digit runs of up to
+// 1000+ digits, hundreds of leading zeros, NUL bytes.
+func longStr(r *hx.Rng) string {
+	var sb strings.Builder
+	for k, chunks := 0, r.Range(1, 4); k < chunks; k++ {
+		switch r.Intn(5) {
+		case 0: // long digit run
+			sb.WriteString(genStr(r))
+			if r.Bool() {
+				sb.WriteString(strings.Repeat("0", hx.Pick(r, thresholdSizes)))
+			}
+			sb.WriteByte(byte('1' + r.Intn(9)))
+			sb.WriteString(digitsN(r, hx.Pick(r, thresholdSizes)-1))
+		case 1: // many zeros, short number
+			sb.WriteString(letter(r))
+			sb.WriteString(strings.Repeat("0", hx.Pick(r, thresholdSizes)))
+			sb.WriteString(digitRun(r))
+		case 2: // one byte repeated
+			sb.WriteString(strings.Repeat(anyByte(r), hx.Pick(r, thresholdSizes)))
+		default: // ordinary text
+			for sb.Len() < 1000 && !r.Chance(1, 60) {
+				sb.WriteString(genStr(r))
+			}
+		}
+		sb.WriteString(letter(r))
+	}
+	for sb.Len() < 1000 && r.Chance(3, 4) {
+		sb.WriteString(genStr(r))
+		sb.WriteString(letter(r))
+	}
+	return sb.String()
+}
+
+// specialPair builds both sides of a pair of kind 12..17.
+func specialPair(r *hx.Rng, kind int) (string, string) {
+	switch kind {
+	case 12: // equal after folding, two to four case differences pointing in alternating directions
+		a := []byte(withLetters(r, genStr(r), r.Range(2, 4)))
+		b := append([]byte(nil), a...)
+		var idx []int
+		for i, c := range a {
+			if isLetter(c) {
+				idx = append(idx, i)
+			}
+		}
+		m := r.Range(2, 4)
+		for len(idx) > m { // keep m of the positions
+			k := r.Intn(len(idx))
+			idx = append(idx[:k], idx[k+1:]...)
+		}
+		up := r.Bool()
+		for _, i := range idx {
+			if up {
+				a[i], b[i] = a[i]&^0x20, b[i]|0x20
+			} else {
+				a[i], b[i] = a[i]|0x20, b[i]&^0x20
+			}
+			if r.Chance(5, 6) {
+				up = !up
+			}
+		}
+		return string(a), string(b)
+	case 13: // numbers congruent modulo a power of two
+		a := withRun(r, genStr(r))
+		if r.Bool() { // make one run big enough to lie beyond 2^64 on at least one side
+			a += hx.Pick(r, []string{"", "x", "-"}) + hx.Pick(r, magnitudes) + hx.Pick(r, []string{"", "y"})
+		}
+		return a, wrapOfRun(r, a)
+	case 14: // proper prefix AFTER case folding, with case differences inside the shared part
+		a := withLetters(r, genStr(r), r.Range(1, 3))
+		b := flipCase(r, a)
+		if r.Bool() {
+			b += anyByte(r)
+			if r.Chance(1, 3) {
+				b += genStr(r)
+			}
+		} else {
+			cut := r.Intn(len(a))
+			a = a[:cut]
+			if r.Chance(1, 4) {
+				a = flipCase(r, a)
+			}
+		}
+		return a, b
+	case 15: // common prefix ending inside a digit run that has a non-zero digit; both continue with digits, one with '0'
+		p := genStr(r)
+		if len(p) > 10 {
+			p = p[:10]
+		}
+		if len(p) > 0 && isDig(p[len(p)-1]) && r.Bool() {
+			p += letter(r)
+		}
+		common := p + strings.Repeat("0", hx.Pick(r, []int{0, 0, 0, 1, 2})) + string([]byte{byte('1' + r.Intn(9))}) +
+			digitsN(r, hx.Pick(r, []int{0, 0, 1, 1, 2, 3, 17, 18, 19}))
+		ta := strings.Repeat("0", r.Range(1, 2)) + digitsN(r, r.Range(0, 3))
+		tb := string([]byte{byte('1' + r.Intn(9))}) + digitsN(r, max(0, len(ta)-1+r.Range(-2, 1)))
+		suffix := ""
+		if r.Bool() {
+			suffix = letter(r) + genStr(r)
+		}
+		sa, sb := suffix, suffix
+		if r.Chance(1, 4) {
+			sb = related(r, suffix, pickKind(r))
+		}
+		return common + ta + sa, common + tb + sb
+	case 16: // the bytes next to the digit range ('/' 0x2f and ':' 0x3a, also '.' ';') directly after a digit run
+		p := genStr(r)
+		if len(p) > 8 {
+			p = p[:8]
+		}
+		seps := []string{":", ":", "/", "/", ".", ";", "", " "}
+		d1 := digitRun(r) + string([]byte{byte('0' + r.Intn(10))})
+		e1 := d1
+		switch r.Intn(4) {
+		case 0:
+			e1 = d1 + digitsN(r, 1)
+		case 1:
+			e1 = d1[:len(d1)-1]
+		case 2:
+			e1 = numberOfRun(r, d1)
+		}
+		d2 := hx.Pick(r, []string{"", "0", "00", "000"}) + digitsN(r, r.Range(0, 3))
+		e2 := hx.Pick(r, []string{"", "0", "00", "000"}) + digitsN(r, r.Range(0, 3))
+		rest := ""
+		if r.Chance(1, 3) {
+			rest = genStr(r)
+		}
+		return p + d1 + hx.Pick(r, seps) + d2 + rest, p + e1 + hx.Pick(r, seps) + e2 + rest
+	default: // strings of 1000+ bytes that differ in one small way
+		a := longStr(r)
+		return a, related(r, a, r.Range(1, 8))
+	}
 }
 
 func genPair(r *hx.Rng) (string, string) {
-	a := genStr(r)
-	kind := pickKind(r)
-	// make the targeted edit applicable
-	switch kind {
-	case 1, 9:
-		if flipCase(r, a) == a {
-			i := r.Intn(len(a) + 1)
-			a = a[:i] + string([]byte{byte('a' + r.Intn(26))}) + a[i:]
+	kind := pickKindBelow(r, len(kindWeights))
+	var a, b string
+	if kind >= 12 {
+		a, b = specialPair(r, kind)
+	} else {
+		a = genStr(r)
+		// make the targeted edit applicable
+		switch kind {
+		case 1, 9:
+			a = withLetters(r, a, 1)
+		case 2, 6:
+			a = withRun(r, a)
 		}
-	case 2, 6:
-		if len(runs(a)) == 0 {
-			i := r.Intn(len(a) + 1)
-			a = a[:i] + digitRun(r) + "7" + a[i:]
-		}
+		b = related(r, a, kind)
 	}
-	b := related(r, a, kind)
 	if r.Bool() {
 		a, b = b, a
 	}
@@ -309,6 +558,73 @@ func genPair(r *hx.Rng) (string, string) {
 var nonASCIICased = []string{"\u00e9", "\u00c9", "\u00df", "\u1e9e", "\u03c3", "\u03a3", "\u03c2", "\u0131", "I", "i", "\u0130",
 	"\u212a", "k", "K", "\u00e5", "\u212b", "\u00c5", "\xff", "\xc3", "\xe9"}
 
+// sortInput builds the argument of one sort call: k strings, a shape (as generated / already sorted / reversed /
+// few distinct values), duplicates, non-ASCII cased letters, invalid UTF-8.
+func sortInput(r *hx.Rng, first string) []string {
+	// slice lengths around the thresholds at which sort implementations switch strategy (12, 16/17, 32/33, 64/65, ...)
+	k := r.Range(0, 9)
+	switch r.Intn(12) {
+	case 0, 1:
+		k = hx.Pick(r, []int{11, 12, 13, 15, 16, 17, 18, 31, 32, 33, 34, 63, 64, 65, 66})
+	case 2, 3:
+		k = r.Range(17, 70)
+	case 4:
+		k = hx.Pick(r, []int{127, 128, 129, 130, 255, 256, 257})
+	case 5:
+		k = r.Range(71, 300)
+		if r.Chance(1, 8) {
+			k = r.Range(1000, 1100)
+		}
+	}
+	parts := make([]string, 0, k)
+	shape := r.Intn(10)
+	switch shape {
+	case 0, 1: // a numbered family, naturally ascending (0) or descending (1) by construction
+		stem := hx.Pick(r, []string{"f", "File ", "", "img_", "\u00e9", "x1."})
+		v := r.Intn(12)
+		for j := 0; j < k; j++ {
+			parts = append(parts, stem+strconv.Itoa(v))
+			v += r.Range(0, 3) * hx.Pick(r, []int{1, 1, 1, 7, 90})
+		}
+		if shape == 1 {
+			for i, j := 0, len(parts)-1; i < j; i, j = i+1, j-1 {
+				parts[i], parts[j] = parts[j], parts[i]
+			}
+		}
+		return parts
+	case 2: // few distinct values, many duplicates
+		pool := []string{first, related(r, first, pickKind(r)), withLetters(r, genStr(r), 1)}
+		pool = append(pool, flipCase(r, pool[2]))
+		for j := 0; j < k; j++ {
+			parts = append(parts, hx.Pick(r, pool))
+		}
+		return parts
+	}
+	cur := first
+	for j := 0; j < k; j++ {
+		parts = append(parts, cur)
+		switch {
+		case r.Chance(1, 4):
+			cur = genStr(r)
+		case r.Chance(1, 6):
+			// cased non-ASCII letters and other bytes on which Unicode and ASCII case folding differ
+			cur = hx.Pick(r, nonASCIICased) + hx.Pick(r, []string{"a", "b", "A", "B", "1", "02", ""}) +
+				hx.Pick(r, append(nonASCIICased, "", "z", "Z"))
+		case r.Chance(1, 8): // an exact duplicate of an earlier element
+			cur = hx.Pick(r, parts)
+		default:
+			cur = related(r, cur, pickKind(r))
+		}
+	}
+	switch shape {
+	case 3: // bytewise ascending (independent of the library): nearly sorted in natural order
+		sort.Strings(parts)
+	case 4: // bytewise descending
+		sort.Sort(sort.Reverse(sort.StringSlice(parts)))
+	}
+	return parts
+}
+
 func (area) Gen(r *hx.Rng, n int, _ string, emit func(string)) {
 	for i := 0; i < n; i++ {
 		a, b := genPair(r)
@@ -317,28 +633,13 @@ func (area) Gen(r *hx.Rng, n int, _ string, emit func(string)) {
 		case 0, 1:
 			emit("less " + ci + " " + hx.Hex([]byte(a)) + " " + hx.Hex([]byte(b)))
 		case 2:
-			// slice lengths around the thresholds at which sort implementations switch strategy (12, 16/17, 32/33, 50+)
-			k := r.Range(0, 9)
-			switch r.Intn(6) {
-			case 0:
-				k = hx.Pick(r, []int{11, 12, 13, 15, 16, 17, 18, 31, 32, 33, 34})
-			case 1:
-				k = r.Range(20, 70)
+			if len(a) > 200 { // keep the elements of sort inputs short
+				a = a[:r.Intn(30)]
 			}
-			parts := make([]string, 0, k)
-			cur := a
-			for j := 0; j < k; j++ {
-				parts = append(parts, hx.Hex([]byte(cur)))
-				switch {
-				case r.Chance(1, 4):
-					cur = genStr(r)
-				case r.Chance(1, 6):
-					// cased non-ASCII letters and other bytes on which Unicode and ASCII case folding differ
-					cur = hx.Pick(r, nonASCIICased) + hx.Pick(r, []string{"a", "b", "A", "B", "1", "02", ""}) +
-						hx.Pick(r, append(nonASCIICased, "", "z", "Z"))
-				default:
-					cur = related(r, cur, pickKind(r))
-				}
+			in := sortInput(r, a)
+			parts := make([]string, len(in))
+			for j, s := range in {
+				parts[j] = hx.Hex([]byte(s))
 			}
 			op := "sorta"
 			if r.Bool() {
@@ -351,6 +652,40 @@ func (area) Gen(r *hx.Rng, n int, _ string, emit func(string)) {
 	}
 }
 
+// Every call of the library runs under a deadline: a change that makes the comparison loop for ever is reported as
+// `hang` within seconds instead of stalling the stream (the stuck goroutine cannot be killed, so after two hangs the
+// remaining lines are skipped). Panics become `panic`; a fatal stack overflow kills the process quickly because the
+// maximal stack is reduced in main.
+const callDeadline = 3 * time.Second
+
+var hangs int
+
+func guarded(f func() string) string {
+	if hangs >= 2 {
+		return "skipped-after-crash"
+	}
+	ch := make(chan string, 1)
+	go func() {
+		defer func() {
+			if e := recover(); e != nil {
+				ch <- "panic"
+			}
+		}()
+		ch <- f()
+	}()
+	t := time.NewTimer(callDeadline)
+	defer t.Stop()
+	select {
+	case s := <-ch:
+		return s
+	case <-t.C:
+		hangs++
+		return "hang"
+	}
+}
+
+const sentinel = "5 sentinel outside the slice"
+
 func (area) Run(line string) string {
 	f := strings.Fields(line)
 	if len(f) == 0 {
@@ -358,26 +693,54 @@ func (area) Run(line string) string {
 	}
 	switch f[0] {
 	case "cmp":
-		return strconv.Itoa(txt.NaturalCmp(string(hx.UnHex(f[2])), string(hx.UnHex(f[3])), f[1] == "1"))
+		if len(f) != 4 {
+			return "bad-op"
+		}
+		a, b := string(hx.UnHex(f[2])), string(hx.UnHex(f[3]))
+		return guarded(func() string { return strconv.Itoa(txt.NaturalCmp(a, b, f[1] == "1")) })
 	case "less":
-		return strconv.FormatBool(txt.NaturalLess(string(hx.UnHex(f[2])), string(hx.UnHex(f[3])), f[1] == "1"))
+		if len(f) != 4 {
+			return "bad-op"
+		}
+		a, b := string(hx.UnHex(f[2])), string(hx.UnHex(f[3]))
+		return guarded(func() string { return strconv.FormatBool(txt.NaturalLess(a, b, f[1] == "1")) })
 	case "sorta", "sortd":
-		in := make([]string, 0, len(f)-1)
-		for _, w := range f[1:] {
-			in = append(in, string(hx.UnHex(w)))
+		// The slice handed to the library sits inside a larger array (0-2 elements in front, 0-3 spare capacity behind,
+		// derived from the line so that a replay does the same): the functions must sort exactly in[0:len] in place.
+		k := len(f) - 1
+		front, spare := len(line)%3, (len(line)/3)%4
+		backing := make([]string, front+k+spare)
+		for i := range backing {
+			backing[i] = sentinel
 		}
-		if f[0] == "sorta" {
-			txt.SortStringsNaturalAscending(in)
-		} else {
-			txt.SortStringsNaturalDescending(in)
+		in := backing[front : front+k]
+		for i, w := range f[1:] {
+			in[i] = string(hx.UnHex(w))
 		}
-		out := make([]string, len(in))
-		for i, s := range in {
-			out[i] = hx.Hex([]byte(s))
-		}
-		return strings.Join(out, " ")
+		return guarded(func() string {
+			if f[0] == "sorta" {
+				txt.SortStringsNaturalAscending(in)
+			} else {
+				txt.SortStringsNaturalDescending(in)
+			}
+			out := make([]string, len(in))
+			for i, s := range in {
+				out[i] = hx.Hex([]byte(s))
+			}
+			res := strings.Join(out, " ")
+			for i, s := range backing {
+				if (i < front || i >= front+k) && s != sentinel {
+					res += " !wrote-outside-the-slice"
+					break
+				}
+			}
+			return res
+		})
 	}
 	return "bad-op"
 }
 
-func main() { hx.Main(map[string]hx.Area{"natsort": area{}}) }
+func main() {
+	debug.SetMaxStack(64 << 20) // runaway recursion dies in milliseconds, not after filling 1 GB
+	hx.Main(map[string]hx.Area{"natsort": area{}})
+}
